@@ -2037,10 +2037,25 @@ impl<'v> World<'v> {
                         }
                     )
                 });
+                let form = if self.cfg.disc_forms && !with_props && !illegal { self.decide_arg(5) } else { 0 };
+                if form != 0 {
+                    self.log(|| format!("  (form {}: 1 = disconnect_with(success), 2 / 3 = with Session Expiry Interval 300 / maximum, 4 = with reason 0x04 and Session Expiry Interval 1)", form));
+                }
                 self.sh.borrow_mut().oracle.op_begin("disconnect", None);
                 let disc_props = [Property::ReasonString("closing for maintenance"), Property::UserProperty("k", "v")];
                 let bad_props = [Property::PayloadFormatIndicator(1)];
-                let r = if with_props {
+                let keep_a = [Property::SessionExpiryInterval(300)];
+                let keep_b = [Property::SessionExpiryInterval(u32::MAX)];
+                let keep_c = [Property::SessionExpiryInterval(1), Property::UserProperty("k", "v")];
+                let r = if form != 0 {
+                    let d = match form {
+                        1 => minimq::Disconnect::success(),
+                        2 => minimq::Disconnect::success().with_properties(&keep_a),
+                        3 => minimq::Disconnect::success().with_properties(&keep_b),
+                        _ => minimq::Disconnect::with_reason(minimq::ReasonCode::DisconnectWithWill).with_properties(&keep_c),
+                    };
+                    self.drive(conn.disconnect_with(d), Some(id), true)
+                } else if with_props {
                     let d = minimq::Disconnect::with_reason(minimq::ReasonCode::DisconnectWithWill).with_properties(&disc_props);
                     self.drive(conn.disconnect_with(d), Some(id), true)
                 } else if illegal {
